@@ -143,17 +143,23 @@ theorem evalArgs_facts (W : World) (rsv : List Var) : ∀ (es : Ir.Exprs) (ps : 
           | inr h0 => exact f2 p h0 x hx
 
 /-- the arguments `append_arguments_for_globals` pushes evaluate, without effect, to references to the statics -/
-theorem globalArgs_eval {M : Msl.MWorld} {env : Ast.Env} {cx : Ctx} {vis : Var → Bool} (hag : AgreeM cx vis env) :
-    ∀ (gs : List Nat), gs.all (fun g => vis (.glob g)) = true →
+theorem globalArgs_eval' {M : Msl.MWorld} {env : Ast.Env} {cx : Ctx} (hvty : env.vty = cx.vty) :
+    ∀ (gs : List Nat), (∀ g ∈ gs, env.res (cx.globName g) = some (.glob g)) →
       ∀ σ, Msl.evalArgs M env (globalArgs cx gs) (globParams cx gs) σ = some (globMArgs gs, σ)
   | [], _, σ => by simp [globalArgs, globParams, globMArgs, Msl.evalArgs]
   | g :: r, hv, σ => by
-    simp only [List.all_cons, Bool.and_eq_true] at hv
-    have ih := globalArgs_eval (M := M) hag r hv.2 σ
-    have hr := hag.res (.glob g) hv.1
-    simp only [Ctx.name] at hr
+    have ih := globalArgs_eval' (M := M) hvty r (fun g' hg' => hv g' (List.mem_cons_of_mem _ hg')) σ
+    have hr := hv g (by simp)
     simp only [globParams, globMArgs, List.map_cons] at ih ⊢
-    simp [globalArgs, Msl.evalArgs, Msl.lvalOf, hr, hag.vty, ih]
+    simp [globalArgs, Msl.evalArgs, Msl.lvalOf, hr, hvty, ih]
+
+theorem globalArgs_eval {M : Msl.MWorld} {env : Ast.Env} {cx : Ctx} {vis : Var → Bool} (hag : AgreeM cx vis env)
+    (gs : List Nat) (hv : gs.all (fun g => vis (.glob g)) = true) :
+    ∀ σ, Msl.evalArgs M env (globalArgs cx gs) (globParams cx gs) σ = some (globMArgs gs, σ) := by
+  apply globalArgs_eval' hag.vty
+  intro g hg
+  have := hag.res (.glob g) (by simpa using (List.all_eq_true.mp hv) g hg)
+  simpa [Ctx.name] using this
 
 theorem hasTag_append : ∀ (a b : HlslAst.Exprs), Msl.hasTagArg (appendArgs a b) = (Msl.hasTagArg a || Msl.hasTagArg b)
   | .nil, b => by simp [appendArgs, Msl.hasTagArg]
